@@ -111,6 +111,21 @@ def constructors(ctx, shape, lkinds, dkind='f'):
         if ok is False:
             failing.append([name, r[1] if r[0] != 'ok' else ctx.observe(r[1])])
         oks.append(ok)
+    # names only: default labels 0..n-1 on every dimension, whichever way the names are given
+    if nd:
+        dref = Ref(dims, [list(range(n)) for n in shape], cells)
+        dforms = {
+            'dims-only': lambda: da.DimArray(vals(), dims=list(dims)),
+            'dims-tuple': lambda: da.DimArray(vals(), dims=tuple(dims)),
+        }
+        if nd == 1:
+            dforms['dims-str'] = lambda: da.DimArray(vals(), dims=dims[0])
+        for name, f in sorted(dforms.items()):
+            r = ctx.call(f)
+            ok = r[0] == 'ok' and same(ctx, r[1], dref)
+            if ok is False:
+                failing.append([name, r[1] if r[0] != 'ok' else ctx.observe(r[1])])
+            oks.append(ok)
     # helpers really fill what they promise
     if dkind == 'f' and nd:
         z = da.zeros(axes=[(d, l) for d, l in zip(dims, labs())])
